@@ -14,6 +14,7 @@ BASE_CONST = '''CONSTANTS
   Lists <- %(lists)s
   KindOf <- McKind
   CloseFails = {"g"}
+  PreNodes = {%(pre)s}
   ThrVals <- %(thr)s
   MaxDepth = %(depth)d
   Dev = {%(dev)s}
@@ -27,8 +28,8 @@ RCFG = {"types": ["t1", "t2"], "nids": ["a", "m", "s", "g"],
         "kinds": {"a": "filter", "g": "filter", "m": "formatter", "s": "sink"}, "close_fails": ["g"]}
 
 
-def consts(depth, dev="", pids='"p1", "p2"', lists="McLists", thr="McNoThr"):
-    return BASE_CONST % dict(depth=depth, dev=dev, pids=pids, lists=lists, thr=thr)
+def consts(depth, dev="", pids='"p1", "p2"', lists="McLists", thr="McNoThr", pre=""):
+    return BASE_CONST % dict(depth=depth, dev=dev, pids=pids, lists=lists, thr=thr, pre=pre)
 
 
 def design(scr, depth, name="design", thr="McNoThr", workers=8, timeout=1500):
@@ -41,8 +42,11 @@ def deviation_check(scr, dev, depth=6):
     return run_tlc(scr, "registry", "MCRegistry", cfg, "dev-" + dev, workers=4, timeout=600, heap="4g")
 
 
-def export_graph(scr, depth, thr="McNoThr", name="export", lists="McLists"):
-    cfg = consts(depth, thr=thr, lists=lists) + "SPECIFICATION SpecE\nVIEW View\nCHECK_DEADLOCK FALSE\n"
+ALLPRE = '"a", "m", "s", "g"'
+
+
+def export_graph(scr, depth, thr="McNoThr", name="export", lists="McLists", pre=""):
+    cfg = consts(depth, thr=thr, lists=lists, pre=pre) + "SPECIFICATION SpecE\nVIEW View\nCHECK_DEADLOCK FALSE\n"
     return run_tlc(scr, "registry", "MCRegistry", cfg, name, workers=1, timeout=1800)
 
 
@@ -75,6 +79,20 @@ def replay(vh, scr, seed, edges=None, walks=None, tag="r"):
     return r
 
 
+def light_binding(vh, scr, seed, quick):
+    """Registry graph replay used by other families (C01/C02 registry half): plain graph + prelude graph + thresholds graph."""
+    import concurrent.futures as cf2
+    with cf2.ThreadPoolExecutor(max_workers=3) as ex:
+        f1 = ex.submit(export_graph, scr, 4 if quick else 5)
+        f2 = ex.submit(export_graph, scr, 3, "McThr", "export-thr", "McListsBig")
+        f3 = ex.submit(export_graph, scr, 3, "McNoThr", "export-pre", "McLists", ALLPRE)
+        reps = []
+        for tag, f, sd in (("graph", f1, seed), ("graph-thr", f2, seed + 1), ("graph-pre", f3, seed + 3)):
+            g = must_pass(f.result(), "registry export " + tag)
+            reps.append((tag, replay(vh, scr, sd, edges=g.out_path, tag=tag), g))
+    return reps
+
+
 def run(prop, tier, seed, out):
     quick = tier == "quick"
     with Scratch("reg") as scr:
@@ -88,6 +106,7 @@ def run(prop, tier, seed, out):
             # 3. behaviours for the binding
             f_graph = ex.submit(export_graph, scr, 4 if quick else 5)
             f_graph_thr = ex.submit(export_graph, scr, 3 if quick else 4, "McThr", "export-thr", "McListsBig")
+            f_graph_pre = ex.submit(export_graph, scr, 3 if quick else 4, "McNoThr", "export-pre", "McLists", ALLPRE)
             f_walks = ex.submit(export_walks, scr, 150 if quick else 2000, 24 if quick else 60, seed)
             f_val = ex.submit(export_validate, scr, 4 if quick else 5) if prop == "C05" else None
 
@@ -95,6 +114,8 @@ def run(prop, tier, seed, out):
             rep = replay(vh, scr, seed, edges=graph.out_path, tag="graph")
             graph2 = must_pass(f_graph_thr.result(), "graph export (thresholds)")
             rep2 = replay(vh, scr, seed + 1, edges=graph2.out_path, tag="graph-thr")
+            graph3 = must_pass(f_graph_pre.result(), "graph export (prelude)")
+            rep4 = replay(vh, scr, seed + 3, edges=graph3.out_path, tag="graph-pre")
             walks = f_walks.result()
             if walks.error and "simulation" not in (walks.error or ""):
                 raise Broken("walk export: " + str(walks.error))
@@ -124,7 +145,7 @@ def run(prop, tier, seed, out):
                     raise Broken("deviation %s does not break any invariant: the invariants are vacuous for it" % dv)
             out.notes.append("vacuity: each of %s alone violates an invariant of Registry" % ", ".join(DEVIATIONS))
 
-        reports = [("graph", rep), ("graph-thr", rep2), ("walks", rep3)]
+        reports = [("graph", rep), ("graph-thr", rep2), ("graph-pre", rep4), ("walks", rep3)]
         total_edges = sum(r["edges"] for _, r in reports)
         total_walks = sum(r["walks"] for _, r in reports)
         if total_edges < 100 or total_walks < 10:
@@ -160,6 +181,20 @@ def run(prop, tier, seed, out):
                     out.notes.append("mismatch attributed to %s (not %s): %s" % (",".join(m["props"]), prop, m["what"]))
             if r["by_prop"].get(prop, 0) and not out.violations:
                 out.violation("%s: %d mismatches attributed to %s" % (nm, r["by_prop"][prop], prop), (r["mismatches"] or [])[:3])
+        if prop == "C07":
+            # overwrites racing with Sends: every Send is processed by exactly one version (never both, never neither)
+            hp, rp = scr.path("c07.ndjson"), scr.path("c07.json")
+            p = run_vh(vh, ["conc-record", "-seed", str(seed), "-n", "2", "-rounds", "10", "-hist", hp, "-out", rp], timeout=900)
+            if p.returncode != 0:
+                if "panic" in p.stderr or "fatal error" in p.stderr:
+                    out.violation("process died during overwrites racing with Sends: " + p.stderr[:300], {"stderr": p.stderr[-3000:]})
+                else:
+                    raise Broken("conc-record failed: " + p.stderr[-1000:])
+            else:
+                for pr in json.load(open(rp))["problems"]:
+                    if pr["prop"] == "C07":
+                        out.violation(pr["what"], pr)
+                out.coverage["overwrite_stress"] = "8 senders vs one overwriting client for 400 ms"
         if vrep and prop == "C05":
             for m in vrep["mismatches"] or []:
                 out.violation("validate: %s: expected %s, real broker %s" % (m["what"], json.dumps(m["expected"])[:200], json.dumps(m["observed"])[:300]), m)
